@@ -224,6 +224,10 @@ class C04(runner.Check):
       if k == 'SuggestTrials':
         op[1]['n'] = rng.choice([1, 1, 2, 3])
       batch.append(op)
+    if rng.random() < 0.06:
+      # simultaneous create-or-load of one (new or existing) study by 2-3 clients
+      d = rng.choice([0, 2, 2])
+      batch = [['CreateStudy', {'o': 0, 'd': d, 'state': 'ACTIVE'}] for _ in range(rng.choice([2, 2, 3]))]
     ns = 20 if tier == 'quick' else 60
     if backend != 'ram':
       ns = max(4, ns // 4)
